@@ -45,17 +45,25 @@ def doE : P String := do
   let kind ← popStr
   let n ← popNat
   let Y ← popMat n 1; let MU ← popMat n 1; let V ← popMat n 1
-  let s ← popRat; let logs ← popRat; let l2p ← popRat
+  let Sv ← popMat n 1; let LS ← popMat n 1; let l2p ← popRat      -- per-point noise sᵢ and log sᵢ
   let LV ← popMat n 1
   let B ← popRat; let kl ← popRat; let N ← popRat; let β ← popRat
   let k ← popNat; let lps ← popRats k
   let j ← popNat; let losses ← popRats j
   let ys := colList Y; let μs := colList MU; let vs := colList V; let lvs := colList LV
+  let ss := colList Sv; let lss := colList LS
+  let pts := List.zip (List.zip ys μs) (List.zip (List.zip vs lvs) (List.zip ss lss))
   let terms : List Rat :=
-    if kind = "elbo" then (List.zip ys (List.zip μs vs)).map fun (y, μ, v) => gaussExpected y μ v s logs l2p
-    else (List.zip (List.zip ys μs) (List.zip vs lvs)).map fun ((y, μ), (v, lv)) => gaussLogMarginal y μ v s lv l2p
+    if kind = "elbo" then pts.map fun ((y, μ), ((v, _), (s, ls))) => gaussExpected y μ v s ls l2p
+    else pts.map fun ((y, μ), ((v, lv), (s, _))) => gaussLogMarginal y μ v s lv l2p
+  let t := terms.sum
+  -- the separately returned terms (`combine_terms=False`), through the generated expressions
+  let gll := Gen.ElboScaling.logLikelihood t B kl N β
+  let gkl := Gen.ElboScaling.klTerm t B kl N β
+  let glp := lps.foldl (fun acc lp => acc + Gen.ElboScaling.logPriorItem lp t B kl N β) 0
+  let gal := losses.foldl (fun acc l => acc + Gen.ElboScaling.addedLossItem l t B kl N β) 0
   pure <| reply [shS (objective terms B kl N β lps losses), shS (objectiveSpec terms B kl N β lps losses),
-    shS terms.sum]
+    shS t, shS gll, shS gkl, shS glp, shS gal]
 
 /-- pieces of the collapsed bound and exact marginal: `C M n Kzz Kzx Kxx r eps epsx s` -/
 def doC : P String := do
